@@ -53,9 +53,48 @@ def gen_conv(seed, shard, n):
         G.append(F3(U(float(lo), float(la))))
     plo, pla = C.equatorial2galactic(A(192.25), A(27.4))
     pole = F3(U(float(plo), float(pla)))
+    def A2(v):
+        # a zero argument is an Angle that held something else, was read, and was then reset with the argument-less set()
+        if v == 0.0:
+            z = Angle(123.25)
+            z.rad(), z.dms_tuple()
+            z.set()
+            return z
+        return Angle(v)
     for (lon, lat) in directions(rng, n):
-        for ev in _conv_one(C, A, rng, lon, lat, G, pole):
+        for ev in _conv_one(C, A2, rng, lon, lat, G, pole):
             yield ev
+
+
+def gen_poles(seed, shard, n, step):
+    """both poles of every frame, exactly, for a fine grid of obliquities / observer latitudes (whether the sine handed to
+    asin() rounds to 1 + 1 ulp depends on the parameter: about one value in 300 does)"""
+    from pymeeus.Angle import Angle
+    from pymeeus import Coordinates as C
+    rng = random.Random("poles/%s/%s" % (seed, shard))
+    A = Angle
+    G = []
+    for (ra, dec) in ((0.0, 0.0), (90.0, 0.0), (0.0, 90.0)):
+        lo, la = C.equatorial2galactic(A(ra), A(dec))
+        G.append(F3(U(float(lo), float(la))))
+    plo, pla = C.equatorial2galactic(A(192.25), A(27.4))
+    pole = F3(U(float(plo), float(pla)))
+    off = rng.random() * step
+    for k in range(n):
+        val = off + step * (shard * n + k)
+        for lat in (90.0, -90.0):
+            lon = rng.choice([0.0, 90.0, 123.456, 270.0])
+
+            class _R(object):
+                # the obliquity is the grid value (kept inside 0..30), the observer's latitude follows it over -90..90
+                def choice(self, seq):
+                    return (val % 30.0) if len(seq) == 5 and seq[0] == 0.0 and seq[1] != 90.0 else ((val * 6.0) % 180.0 - 90.0)
+
+                def uniform(self, a, b):
+                    return a
+            for ev in _conv_one(C, A, _R(), lon, lat, G, pole):
+                if ev.get("k") in ("ecl", "hor", "raise"):
+                    yield ev
 
 
 def _conv_one(C, A, rng, lon, lat, G, pole):
